@@ -9,11 +9,19 @@ package props
 //     minIdMilli  minimum identity in thousandths passed to Optimise (as float64(milli)/1000)
 //     maxMemMB    memory cap handed to pals.New (0 = none); it only limits the word length Optimise
 //                 may choose (k=15 needs a 4 GB index)
-//     plants      ';' separated planted repeat pairs  aPos:aLen:bPos:bLen:comp  ("-" none):
+//     plants      ';' separated planted repeat pairs  aPos:aLen:bPos:bLen:comp[:class]  ("-" none):
 //                 copy A is target[aPos,aPos+aLen), copy B is query[bPos,bPos+bLen) in the
 //                 query's own coordinates, reverse-complemented when comp=1.  Only the driver
-//                 uses them (recall); the implementation never sees them.
+//                 uses them (recall); the implementation never sees them.  class 0 (default): the
+//                 calibrated class, recall always demanded; class 1: boundary class (length
+//                 minLen+1..minLen+12, a substitution 4..11 letters from an end), recall demanded by the
+//                 driver exactly when the pair contains an eps-match of the chosen filter parameters
 //     target, query  letters (acgt), query "-" for self comparison
+//
+//   pt <minLen> <minIdMilli> <plants> <traps> <target> <query>
+//     two sequences, forward strand only: pals.New, Optimise, then AlignFrom(traps, false) with the given
+//     trapezoids (';' separated Top:Bottom:Left:Right, ascending Bottom) instead of the filter's; every
+//     planted pair lies inside one of the trapezoids.  Observation as for pw.
 //
 // Observation
 //   err:<kind>                         Optimise/BuildIndex/Align failed
@@ -23,7 +31,9 @@ package props
 //                                      strand:Abpos:Aepos:Bbpos:Bepos:Score:ErrE12:LowDiag:HighDiag
 //                                      (strand 0 = forward, 1 = complement; B coordinates are in the
 //                                      sequence Align worked on, i.e. the reverse complement of the
-//                                      query for strand 1; ErrE12 = round(Error*1e12))
+//                                      query for strand 1; ErrE12 = round(Error*1e12)); for pw a fourth token
+//                                      T=<traps strand 0>|<traps strand 1> (';' separated Top:Bottom:Left:Right): the
+//                                      trapezoids the merger handed to the aligner
 
 import (
 	"fmt"
@@ -95,10 +105,91 @@ func c15ExecOptimise(f []string) string {
 	return fmt.Sprintf("P=%d,%d,%d,%d O=%d,%d", fp.WordSize, fp.MinMatch, fp.MaxError, fp.TubeOffset, mws, sd0)
 }
 
+// pt: the aligner on a hand-made trapezoid list
+func c15ExecTraps(f []string) string {
+	minLen := hx.Atoi(f[1])
+	minID := float64(hx.Atoi(f[2])) / 1000
+	target := linear.NewSeq("t", alphabet.BytesToLetters([]byte(f[5])), alphabet.DNA)
+	query := linear.NewSeq("q", alphabet.BytesToLetters([]byte(f[6])), alphabet.DNA)
+	v := uintptr(64) << 20
+	pa := pals.New(target, query, false, nil, 0, &v, nil)
+	mws := int(util.Log4(float64(target.Len())) - util.Log4(pals.MaxAvgIndexListLen) + 0.5)
+	sd0 := int(float64(minLen) * (1 - minID))
+	if err := pa.Optimise(minLen, minID); err != nil {
+		return fmt.Sprintf("err:optimise O=%d,%d", mws, sd0)
+	}
+	var traps filter.Trapezoids
+	if f[4] != "-" {
+		for _, ts := range strings.Split(f[4], ";") {
+			x := strings.Split(ts, ":")
+			if len(x) != 4 {
+				panic("c15: bad trapezoid")
+			}
+			traps = append(traps, filter.Trapezoid{Top: hx.Atoi(x[0]), Bottom: hx.Atoi(x[1]), Left: hx.Atoi(x[2]), Right: hx.Atoi(x[3])})
+		}
+	}
+	hits, err := pa.AlignFrom(traps, false)
+	if err != nil {
+		return "err:align:" + hx.Hex([]byte(err.Error()))
+	}
+	fp := pa.FilterParams
+	var sb strings.Builder
+	fmt.Fprintf(&sb, "P=%d,%d,%d,%d O=%d,%d H=", fp.WordSize, fp.MinMatch, fp.MaxError, fp.TubeOffset, mws, sd0)
+	c15RenderHits(&sb, 0, hits, 0)
+	if len(hits) == 0 {
+		sb.WriteByte('-')
+	}
+	return sb.String()
+}
+
+func c15RenderTraps(traps filter.Trapezoids) string {
+	if len(traps) == 0 {
+		return "-"
+	}
+	ss := make([]string, len(traps))
+	for i, t := range traps {
+		ss[i] = fmt.Sprintf("%d:%d:%d:%d", t.Top, t.Bottom, t.Left, t.Right)
+	}
+	return strings.Join(ss, ";")
+}
+
+// c15RenderHits appends the hits of one strand in a canonical order; n = number of hits already written
+func c15RenderHits(sb *strings.Builder, strand int, hits dp.Hits, n int) int {
+	hs := append(dp.Hits(nil), hits...)
+	sort.SliceStable(hs, func(i, j int) bool {
+		a, b := hs[i], hs[j]
+		if a.Abpos != b.Abpos {
+			return a.Abpos < b.Abpos
+		}
+		if a.Bbpos != b.Bbpos {
+			return a.Bbpos < b.Bbpos
+		}
+		if a.Aepos != b.Aepos {
+			return a.Aepos < b.Aepos
+		}
+		return a.Bepos < b.Bepos
+	})
+	for _, h := range hs {
+		if n > 0 {
+			sb.WriteByte(';')
+		}
+		n++
+		e12 := "nan"
+		if !math.IsNaN(h.Error) && !math.IsInf(h.Error, 0) {
+			e12 = fmt.Sprintf("%d", int64(math.Round(h.Error*1e12)))
+		}
+		fmt.Fprintf(sb, "%d:%d:%d:%d:%d:%d:%s:%d:%d", strand, h.Abpos, h.Aepos, h.Bbpos, h.Bepos, h.Score, e12, h.LowDiagonal, h.HighDiagonal)
+	}
+	return n
+}
+
 func c15Exec(input string) string {
 	f := hx.Fields(input)
 	if len(f) == 7 && f[0] == "po" {
 		return c15ExecOptimise(f)
+	}
+	if len(f) == 7 && f[0] == "pt" {
+		return c15ExecTraps(f)
 	}
 	if len(f) != 8 || f[0] != "pw" {
 		panic("c15: bad input")
@@ -138,40 +229,20 @@ func c15Exec(input string) string {
 	sd0 := int(float64(minLen) * (1 - minID))
 	fmt.Fprintf(&sb, "P=%d,%d,%d,%d O=%d,%d H=", fp.WordSize, fp.MinMatch, fp.MaxError, fp.TubeOffset, mws, sd0)
 	n := 0
+	var ts [2]string
 	for strand, comp := range []bool{false, true} {
 		hits, err := pa.Align(comp)
 		if err != nil {
 			return "err:align:" + hx.Hex([]byte(err.Error()))
 		}
-		hs := append(dp.Hits(nil), hits...)
-		sort.SliceStable(hs, func(i, j int) bool {
-			a, b := hs[i], hs[j]
-			if a.Abpos != b.Abpos {
-				return a.Abpos < b.Abpos
-			}
-			if a.Bbpos != b.Bbpos {
-				return a.Bbpos < b.Bbpos
-			}
-			if a.Aepos != b.Aepos {
-				return a.Aepos < b.Aepos
-			}
-			return a.Bepos < b.Bepos
-		})
-		for _, h := range hs {
-			if n > 0 {
-				sb.WriteByte(';')
-			}
-			n++
-			e12 := "nan"
-			if !math.IsNaN(h.Error) && !math.IsInf(h.Error, 0) {
-				e12 = fmt.Sprintf("%d", int64(math.Round(h.Error*1e12)))
-			}
-			fmt.Fprintf(&sb, "%d:%d:%d:%d:%d:%d:%s:%d:%d", strand, h.Abpos, h.Aepos, h.Bbpos, h.Bepos, h.Score, e12, h.LowDiagonal, h.HighDiagonal)
-		}
+		n = c15RenderHits(&sb, strand, hits, n)
+		ts[strand] = c15RenderTraps(pa.Trapezoids())
 	}
 	if n == 0 {
 		sb.WriteByte('-')
 	}
+	// the trapezoids each strand's aligner was given (the kernel model is run on them)
+	fmt.Fprintf(&sb, " T=%s|%s", ts[0], ts[1])
 	return sb.String()
 }
 
@@ -275,7 +346,7 @@ func c15MutateS(g *hx.Gen, s []byte, nsub int, widths []int, spacing int) []byte
 	return c
 }
 
-type c15Plant struct{ aPos, aLen, bPos, bLen, comp int }
+type c15Plant struct{ aPos, aLen, bPos, bLen, comp, cls int }
 
 // one workload
 func c15Workload(g *hx.Gen) string {
@@ -312,12 +383,52 @@ func c15Workload(g *hx.Gen) string {
 		if g.Chance(0.3) {
 			R = g.Range(lo, lo+60)
 		}
+		// boundary class: only a few letters longer than the minimum hit length, with a substitution so
+		// close to an end that the k-mers beyond it are lost and the filter trapezoid is lower than minLen
+		cls := 0
+		if g.Chance(0.3) {
+			cls = 1
+			R = minLen + g.Range(1, 12)
+		}
 		rep := g.Letters("acgt", R)
 		// copy B: exact, substitutions, or substitutions and small indels; identity comfortably above minId:
 		// at most a third of the allowed differences
 		allowed := int(float64(R) * (1 - float64(minIDm)/1000) / 3)
 		var cp []byte
-		switch g.Intn(3) {
+		kind := g.Intn(3)
+		if cls == 1 {
+			kind = 3
+		}
+		switch kind {
+		case 3:
+			cp = append([]byte{}, rep...)
+			subst := func(p int) {
+				for {
+					b := "acgt"[g.Intn(4)]
+					if b != cp[p] {
+						cp[p] = b
+						return
+					}
+				}
+			}
+			r := g.Range(4, 11)
+			if g.Chance(0.5) {
+				subst(r)
+			} else {
+				subst(R - 1 - r)
+			}
+			if allowed >= 2 && g.Chance(0.5) {
+				subst(g.Range(25, R-26))
+			}
+			if allowed >= 3 && g.Chance(0.25) {
+				// one single-letter indel in the middle (the pair then usually has no eps-match of full seed length)
+				p := g.Range(40, R-41)
+				if g.Chance(0.5) {
+					cp = append(cp[:p], cp[p+1:]...)
+				} else {
+					cp = append(cp[:p], append(g.Letters("acgt", 1), cp[p:]...)...)
+				}
+			}
 		case 0:
 			cp = append([]byte{}, rep...)
 		case 1:
@@ -378,7 +489,7 @@ func c15Workload(g *hx.Gen) string {
 			} else {
 				usedQ = append(usedQ, span{b, b + len(cp)})
 			}
-			plants = append(plants, c15Plant{a, len(rep), b, len(cp), comp})
+			plants = append(plants, c15Plant{a, len(rep), b, len(cp), comp, cls})
 			placed = true
 		}
 	}
@@ -430,6 +541,9 @@ func c15Workload(g *hx.Gen) string {
 		ss := make([]string, len(plants))
 		for i, p := range plants {
 			ss[i] = fmt.Sprintf("%d:%d:%d:%d:%d", p.aPos, p.aLen, p.bPos, p.bLen, p.comp)
+			if p.cls != 0 {
+				ss[i] += fmt.Sprintf(":%d", p.cls)
+			}
 		}
 		ps = strings.Join(ss, ";")
 	}
@@ -450,6 +564,165 @@ func c15Workload(g *hx.Gen) string {
 func c15NearDiagonal(g *hx.Gen, r int) string {
 	L := 34*g.Range(58, 105) + r
 	return fmt.Sprintf("pw 1 100 %d 64 - %s -", g.Pick(700, 700, 720), string(g.Letters("acgt", L)))
+}
+
+// pt: a repeat family on hand-made narrow trapezoids.  X occurs in both sequences (diagonal dX); a second
+// target region Z consists of the last s letters of X followed by W, and the query continues X with W, so
+// the pair (Z, end of X + W) lies on another diagonal and its query rows begin inside X's.  X's diagonal carries
+// two or three trapezoids (as after a split by expiry or clipping), Z's one, which in ascending Bottom comes
+// between them: the hit found from X's first trapezoid covers X's later ones, and the aligner must still
+// align Z's.
+func c15FamilyWorkload(g *hx.Gen) string {
+	minLen := g.Pick(100, 120, 150)
+	minIDm := g.Pick(850, 900, 940)
+	Lx := g.Range(350, 600)
+	X := g.Letters("acgt", Lx)
+	W := g.Letters("acgt", g.Range(minLen+30, 250))
+	s := g.Range(minLen/2, 200)
+	if s > Lx-150 {
+		s = Lx - 150
+	}
+	Z := append(append([]byte{}, X[Lx-s:]...), W...)
+	a0, b0 := g.Range(50, 400), g.Range(50, 400)
+	j1 := g.Range(100, 400)
+	var target, query []byte
+	target = append(target, g.Letters("acgt", a0)...)
+	target = append(target, X...)
+	target = append(target, g.Letters("acgt", j1)...)
+	tZ := len(target)
+	target = append(target, Z...)
+	target = append(target, g.Letters("acgt", g.Range(50, 300))...)
+	query = append(query, g.Letters("acgt", b0)...)
+	query = append(query, X...)
+	query = append(query, W...)
+	query = append(query, g.Letters("acgt", g.Range(50, 300))...)
+	qZ := b0 + Lx - s
+	dX, dZ := b0-a0, qZ-tZ
+	type trap struct{ top, bottom, left, right int }
+	h := g.Range(1, 3)
+	var traps []trap
+	// X's first trapezoid
+	bot0 := b0 + g.Range(0, 40)
+	traps = append(traps, trap{bot0 + g.Range(30, 100), bot0, dX - h, dX + h})
+	// Z's trapezoid: starts a little after Z's first query row
+	bot1 := qZ + g.Range(0, 15)
+	traps = append(traps, trap{bot1 + g.Range(40, len(Z)-40), bot1, dZ - h, dZ + h})
+	// X's later trapezoids, inside X's rows, after bot1
+	nLater := g.Pick(0, 1, 1, 2)
+	bot := bot1
+	for i := 0; i < nLater; i++ {
+		bot += g.Range(1, 25)
+		top := bot + g.Range(20, 60)
+		if top > b0+Lx {
+			top = b0 + Lx
+		}
+		if top-bot < 16 {
+			break
+		}
+		traps = append(traps, trap{top, bot, dX - h, dX + h})
+	}
+	ts := make([]string, len(traps))
+	for i, t := range traps {
+		ts[i] = fmt.Sprintf("%d:%d:%d:%d", t.top, t.bottom, t.left, t.right)
+	}
+	plants := fmt.Sprintf("%d:%d:%d:%d:0;%d:%d:%d:%d:0", a0, Lx, b0, Lx, tZ, len(Z), qZ, len(Z))
+	return fmt.Sprintf("pt %d %d %s %s %s %s", minLen, minIDm, plants, strings.Join(ts, ";"), string(target), string(query))
+}
+
+// self comparison with an inverted repeat whose arms are mirror images about the sequence centre: copy at
+// [a,a+L), reverse-complemented copy at [b,b+L) with a+b+L = len + delta; for delta = 0 the pair lies on the
+// main diagonal of the complement comparison and is reported with identical A and B coordinates (which on that
+// strand does not mean "the same region"); delta = +-1, +-7 are the near-mirrored controls
+func c15MirrorWorkload(g *hx.Gen) string {
+	n := g.Range(2000, g.Scale(5000, 12000))
+	minLen := g.Pick(100, 120, 150, 200)
+	minIDm := g.Pick(750, 800, 850, 900, 940)
+	L := g.Range(minLen+30, 400)
+	delta := g.Pick(0, 0, 0, 0, 1, -1, 7, -7)
+	amax := (n + delta - 2*L - 50) / 2
+	a := g.Range(0, amax)
+	if g.Chance(0.1) {
+		a = 0
+	}
+	b := n + delta - a - L
+	target := g.Letters("acgt", n)
+	rep := g.Letters("acgt", L)
+	cp := append([]byte{}, rep...)
+	if g.Chance(0.5) {
+		allowed := int(float64(L) * (1 - float64(minIDm)/1000) / 3)
+		cp = c15Mutate(g, rep, g.Range(0, allowed), 0)
+	}
+	cp = c15RevComp(cp)
+	copy(target[a:], rep)
+	copy(target[b:], cp)
+	return fmt.Sprintf("pw 1 %d %d 64 %d:%d:%d:%d:1 %s -", minLen, minIDm, a, L, b, L, string(target))
+}
+
+// a repeat family: one segment with several exact copies, so that different pairs share one side and their
+// alignments end on exactly the same target coordinate.  Two sequences: one copy in the target, 2-3 in the
+// query (all on the same strand); self comparison: 3 forward copies, i.e. the pairs 1-2, 1-3, 2-3.
+// Recall is demanded for every pair.
+func c15CopiesWorkload(g *hx.Gen) string {
+	self := g.Chance(0.4)
+	minLen := g.Pick(100, 120, 150)
+	minIDm := g.Pick(800, 850, 900, 940)
+	L := g.Range(minLen+30, 300)
+	rep := g.Letters("acgt", L)
+	place := func(seq []byte, m int, s []byte) []int {
+		// m non-overlapping positions, at least 60 letters apart
+		for try := 0; try < 200; try++ {
+			var ps []int
+			ok := true
+			for i := 0; i < m && ok; i++ {
+				p := g.Intn(len(seq) - len(s))
+				for _, q := range ps {
+					if p < q+len(s)+60 && q < p+len(s)+60 {
+						ok = false
+					}
+				}
+				ps = append(ps, p)
+			}
+			if ok {
+				sort.Ints(ps)
+				for _, p := range ps {
+					copy(seq[p:], s)
+				}
+				return ps
+			}
+		}
+		return nil
+	}
+	var plants []string
+	if self {
+		target := g.Letters("acgt", g.Range(2500, g.Scale(5000, 12000)))
+		ps := place(target, 3, rep)
+		if ps == nil {
+			return ""
+		}
+		for i := 0; i < 3; i++ {
+			for j := i + 1; j < 3; j++ {
+				plants = append(plants, fmt.Sprintf("%d:%d:%d:%d:0", ps[i], L, ps[j], L))
+			}
+		}
+		return fmt.Sprintf("pw 1 %d %d 64 %s %s -", minLen, minIDm, strings.Join(plants, ";"), string(target))
+	}
+	target := g.Letters("acgt", g.Range(2000, g.Scale(5000, 12000)))
+	query := g.Letters("acgt", g.Range(2500, g.Scale(5000, 12000)))
+	tp := place(target, 1, rep)
+	comp := 0
+	cp := rep
+	if g.Chance(0.4) {
+		comp = 1
+		cp = c15RevComp(rep)
+	}
+	qs := place(query, g.Pick(2, 2, 3), cp)
+	if tp == nil || qs == nil {
+		return ""
+	}
+	for _, q := range qs {
+		plants = append(plants, fmt.Sprintf("%d:%d:%d:%d:%d", tp[0], L, q, L, comp))
+	}
+	return fmt.Sprintf("pw 0 %d %d 64 %s %s %s", minLen, minIDm, strings.Join(plants, ";"), string(target), string(query))
 }
 
 func c15GenOptimise(g *hx.Gen) {
@@ -479,6 +752,20 @@ func c15Gen(g *hx.Gen) {
 	c15GenOptimise(g)
 	n := g.Scale(300, 2000)
 	for i := 0; i < n && !g.Done(); i++ {
+		if i%10 == 7 {
+			g.Case(c15FamilyWorkload(g))
+			continue
+		}
+		if i%10 == 2 {
+			g.Case(c15MirrorWorkload(g))
+			continue
+		}
+		if i%10 == 5 {
+			if w := c15CopiesWorkload(g); w != "" {
+				g.Case(w)
+				continue
+			}
+		}
 		if i%5 == 4 {
 			res := []int{29, 30, 31, 32, 33, 0, 28, 1}
 			r := res[(i/5)%len(res)]
@@ -494,7 +781,7 @@ func c15Gen(g *hx.Gen) {
 
 func c15Shrink(input string) []string {
 	f := hx.Fields(input)
-	if len(f) != 8 {
+	if len(f) != 8 || f[0] != "pw" {
 		return nil
 	}
 	// drop the plants (soundness failures do not need them)
@@ -600,6 +887,8 @@ func palsConstFacts(repo string) (string, error) {
 	for _, t := range []struct{ file, fn, lean string }{
 		{"align/pals/dp/kernel.go", "alignRecursion", "fpAlignRecursion"},
 		{"align/pals/dp/align.go", "AlignTraps", "fpAlignTraps"},
+		{"align/pals/dp/kernel.go", "traceForward", "fpTraceForward"},
+		{"align/pals/dp/kernel.go", "traceReverse", "fpTraceReverse"},
 	} {
 		fs2 := token.NewFileSet()
 		f2, err := parser.ParseFile(fs2, filepath.Join(repo, filepath.FromSlash(t.file)), nil, 0)
@@ -617,6 +906,6 @@ func palsConstFacts(repo string) (string, error) {
 }
 
 func init() {
-	hx.Register(&hx.Prop{ID: "C15", Gen: c15Gen, Exec: c15Exec, Shrink: c15Shrink, Timeout: 120 * time.Second})
+	hx.Register(&hx.Prop{ID: "C15", Part: "pipeline", Ops: []string{"pw", "po", "pt"}, Weight: 3, Gen: c15Gen, Exec: c15Exec, Shrink: c15Shrink, Timeout: 120 * time.Second})
 	hx.RegisterFacts(hx.FactGen{File: "PalsConsts.lean", Gen: palsConstFacts})
 }
